@@ -484,6 +484,85 @@ def dribble (s g : Nat) : Nat → List (Nat × Ev)
   | 0 => []
   | n + 1 => (s + g, .data) :: dribble (s + g) g n
 
+/-! ## What an expired wait hands to the connection loop
+
+`handleLoop` is `for { if err := pc.handle(); err != nil { if errors.Is(err, errClose) || isCloseable(err) { return } ;
+errorsN++ ; if errorsN >= 5 { return } } else { errorsN = 0 } }` with `defer conn.Close()`.  `isCloseable` accepts
+EOF, closed pipes, `tls:` errors and net errors that are NOT time-outs: a raw time-out error is deliberately
+not closeable (it counts against the budget of five consecutive errors).  Whether a wait that expired ends
+the connection therefore depends on WHAT its code returns:
+
+  * `readRequest` failing (idle wait, request head): `handle` returns `errClose` for every error;
+  * `handleMITM`: the peek for the first tunnel byte and the handshake return `errClose` for every error;
+  * `writeResponse` failing under the write deadline: the flush error closes (`errClose`);
+  * PROXY header / listener handshake: they precede the loop — `handleLoop` returns;
+  * a request body under ReadTimeout: the round trip fails, the failure is ANSWERED (504) and `handle` returns
+    `nil` — the loop comes round and `readRequest` arms a fresh idle deadline (F49, `settle`).
+
+`expiryErr` is that table; `runRe re n` is the loop for an arbitrary table `re` (`true` = the expiry in that
+phase is handed to the loop as something it does not close on: the loop comes round, idle from the instant
+of the expiry) with at most `n` such rounds in a row (`maxConsecutiveErrors - 1 = 4` in the code; an answered
+failure resets the count). -/
+
+/-- what `handle()` hands to `handleLoop` when the wait of a phase is abandoned at its deadline -/
+inductive HErr
+  | errClose   -- the sentinel (or an error `isCloseable` accepts): the loop returns, the connection is closed
+  | timeout    -- a raw `net.Error` with `Timeout() = true`: not closeable, the loop comes round
+  | answered   -- no error: the failure was answered with an error response, the loop comes round
+deriving DecidableEq, Repr
+
+/-- `errors.Is(err, errClose) || isCloseable(err)` -/
+def loopCloses : HErr → Bool
+  | .errClose => true
+  | _ => false
+
+/-- the code -/
+def expiryErr : Phase → HErr
+  | .body => .answered   -- F49
+  | _ => .errClose
+
+/-- the phases whose expiry makes the loop come round, in the code: the request body alone (F49) -/
+def reCode (p : Phase) : Bool := !loopCloses (expiryErr p)
+
+def expired (c : Conn) (u : Nat) : Bool :=
+  match c.deadline with
+  | some d => decide (d ≤ u)
+  | none => false
+
+/-- the state of the loop looked at at `u`: every deadline that expired by then in a phase of `re` made the
+    loop come round — `readRequest` armed the idle deadline at the instant of the expiry —, at most `n`
+    times in a row -/
+def lapse (re : Phase → Bool) (L : Limits) : Nat → Conn → Nat → Conn
+  | 0, c, _ => c
+  | n + 1, c, u =>
+    match c.deadline with
+    | some d => if d ≤ u && re c.phase then lapse re L n (enter L .idle d) u else c
+    | none => c
+
+/-- `lapse` when the peers do nothing more: every armed deadline expires -/
+def lapseEnd (re : Phase → Bool) (L : Limits) : Nat → Conn → Conn
+  | 0, c => c
+  | n + 1, c =>
+    match c.deadline with
+    | some d => if re c.phase then lapseEnd re L n (enter L .idle d) else c
+    | none => c
+
+/-- `run` for the table `re` with `n` rounds tolerated in a row -/
+def runRe (re : Phase → Bool) (n : Nat) (S : Stacking) (L : Limits) : Conn → List (Nat × Ev) → Outcome
+  | c, [] =>
+    match (lapseEnd re L n c).deadline with
+    | some d => .closed d (lapseEnd re L n c).phase (lapseEnd re L n c).anchor
+    | none => .stays (lapseEnd re L n c)
+  | c, (t, e) :: rest =>
+    match (lapse re L n c (max t c.anchor)).deadline with
+    | some d => if d ≤ max t c.anchor then
+                  .closed d (lapse re L n c (max t c.anchor)).phase (lapse re L n c (max t c.anchor)).anchor
+                else runRe re n S L (next S L (lapse re L n c (max t c.anchor)) (max t c.anchor) e) rest
+    | none => runRe re n S L (next S L (lapse re L n c (max t c.anchor)) (max t c.anchor) e) rest
+
+/-- NOT the code: `handleMITM` returning the raw peek error (a time-out is not closeable) instead of `errClose` -/
+def reMitmPeek (p : Phase) : Bool := p == .body || p == .mitmPeek
+
 /-! ## Decidable forms of the property's clauses on what the implementation did -/
 
 /-- closed `elapsed` ms after the phase began, limit `limit`: not earlier than the limit (up to clock
